@@ -57,6 +57,8 @@ func evTagText(x *sx) (string, bool) {
 // exit checks the chain for an exit of the given kind family ("ret" with block name, or "go" with tag)
 func (pc *evPathChecker) exit(stack []evPathEntry, isGo bool, name string) {
 	var cells []evPathEntry
+	// value forms of enclosing return-from forms crossed so far whose own block has not been seen yet
+	var pendingRF []string
 	for i := len(stack) - 1; i >= 0; i-- {
 		e := stack[i]
 		if e.fence {
@@ -65,6 +67,9 @@ func (pc *evPathChecker) exit(stack []evPathEntry, isGo bool, name string) {
 		}
 		if e.cell != "" {
 			cells = append(cells, e)
+			if e.cell == "return-from.value" {
+				pendingRF = append(pendingRF, e.selfOf)
+			}
 			continue
 		}
 		kind := ""
@@ -89,6 +94,16 @@ func (pc *evPathChecker) exit(stack []evPathEntry, isGo bool, name string) {
 			if e.through != "" {
 				cells = append(cells, evPathEntry{cell: e.through})
 			}
+			if e.block != "" {
+				// the block of an enclosing return-from lies inside the exit's target: harmless
+				var still []string
+				for _, w := range pendingRF {
+					if w != e.block {
+						still = append(still, w)
+					}
+				}
+				pendingRF = still
+			}
 			continue
 		}
 		for _, c := range cells {
@@ -96,11 +111,15 @@ func (pc *evPathChecker) exit(stack []evPathEntry, isGo bool, name string) {
 				pc.fail("cell=" + c.cell + " exit=" + kind)
 				return
 			}
-			if c.cell == "return-from.value" && c.selfOf == name && !isGo {
-				if pc.avoid("return-from.value-same-block", kind) {
-					pc.fail("cell=return-from.value-same-block exit=" + kind)
-					return
-				}
+		}
+		for _, w := range pendingRF {
+			pair := "return-from.value-outer-block"
+			if !isGo && w == name {
+				pair = "return-from.value-same-block"
+			}
+			if pc.avoid(pair, kind) {
+				pc.fail("cell=" + pair + " exit=" + kind)
+				return
 			}
 		}
 		return
